@@ -453,7 +453,12 @@ class Upstream:
         if self.mode == 'err':
             raise HTTPClientError('upstream says 404', response_code=404)
         q = {k.lower(): v[0] for k, v in parse_qs(urlparse(url).query).items()}
-        if overlay:
+        if '/b?' in url:
+            # top layer of the merged WMS-C stream: opaque on the right half only, the layer below shows through
+            w, h = int(q['width']), int(q['height'])
+            img = Image.new('RGBA', (w, h), (0, 0, 0, 0))
+            img.paste(tuple(self.color) + (255,), (w // 2, 0, w, h))
+        elif overlay:
             img = Image.new('RGBA', (int(q['width']), int(q['height'])), (0, 0, 0, 0))
         else:
             img = Image.new('RGB', (int(q['width']), int(q['height'])), self.color)
@@ -472,7 +477,7 @@ SVC_MODEL = {'tms': 'TMS', 'wmts': 'WMTS', 'wmtskvp': 'WMTS', 'kml': 'KML', 'wms
 
 
 class App:
-    def __init__(self, ctx, cache_type, meta, hours, link=None, refresh=False, two=False, auth=False):
+    def __init__(self, ctx, cache_type, meta, hours, link=None, refresh=False, two=False, auth=False, opts=None):
         import yaml
         from mapproxy.wsgiapp import make_wsgi_app
         from webtest import TestApp
@@ -490,6 +495,15 @@ class App:
                                    'on_error': {500: {'response': '#ff0000', 'cache': False}}}}}
         if link:
             conf['caches']['c1']['link_single_color_images'] = True if link == 'symlink' else link
+        opts = opts or {}
+        self.authorize_stale = bool(opts.get('authorize_stale'))
+        if self.authorize_stale:
+            # the documented way to keep serving old tiles during an outage
+            conf['sources']['up']['on_error'][500]['authorize_stale'] = True
+        self.tcolor = bool(opts.get('tcolor'))
+        if self.tcolor:
+            # the source post-processes its images (white becomes transparent)
+            conf['sources']['up']['image'] = {'transparent_color': '#ffffff', 'transparent_color_tolerance': 5}
         self.ref = None
         if refresh:
             self.ref = base + '/refresh_reference'
@@ -535,7 +549,7 @@ class App:
         bb = self.grid.tile_bbox((x, y, z))
         return ('/service?service=WMS&request=GetMap&version=1.1.1&layers=lyr&styles=&srs=EPSG:900913&format=image/png'
                 '&width=256&height=256&tiled=true&bbox=%r,%r,%r,%r' % bb
-                + ('&transparent=true' if self.two else ''))     # the two-source cache stores transparent tiles
+                + ('&transparent=true' if (self.two or self.tcolor) else ''))     # the two-source cache stores transparent tiles
 
     def ref_mtime(self):
         return None if self.ref is None else os.stat(self.ref).st_mtime
@@ -751,7 +765,7 @@ class History:
         linked_existing = bool(self.app.link and mode == 'ok' and pre is None
                                and os.path.exists(self.app.color_file(self.up.color)))
         stale = self.app.is_stale(pre)
-        refreshing = stale and mode in ('ok', 'fail')
+        refreshing = stale and (mode == 'ok' or (mode == 'fail' and not self.app.authorize_stale))
         ran_other = []
         tm = self.app.tm
         if overlap is not None:
@@ -787,7 +801,7 @@ class History:
             before = dict(self.store)
             pre = before[key]
             stale = self.app.is_stale(pre)
-            refreshing = stale and mode in ('ok', 'fail')
+            refreshing = stale and (mode == 'ok' or (mode == 'fail' and not self.app.authorize_stale))
             calls0 = ran_other[-1]
         asked = self.up.calls - calls0
         after = self.observe_all()
@@ -970,7 +984,8 @@ class History:
                 ctx.problem('harness', 'timestamp outside the tick grid: %s' % e, step)
                 return status
         elif mode == 'fail':
-            up_l = '(UFill %s)' % zlit(self.body_id(body) if status == 200 and (pre is None or refreshing) else 1)
+            up_l = '(%s %s)' % ('UFillStale' if self.app.authorize_stale else 'UFill',
+                                zlit(self.body_id(body) if status == 200 and (pre is None or refreshing) else 1))
         else:
             up_l = 'UErr' if mode == 'err' or pre is None else (
                 '(UOk 1 %s 1 {| e_ts := %s; e_size := 1; e_body := 1 |})' % (stamp_lit(float(now)), stamp_lit(float(now))))
@@ -1075,13 +1090,15 @@ def run_script(ctx, hist, up, script):
 
 
 def run_history(ctx, cache_type, meta, hours, nsteps, up, clock, script=None, link=None, tz=None, refresh=False, two=False,
-                auth=False):
+                auth=False, opts=None):
     rng = ctx.rng
     label = '%s,meta=%d,max_age=%dh%s%s%s%s' % (cache_type, meta, hours, ',link=' + link if link else '', ',TZ=' + tz if tz else '',
                                               ',refresh_before' if refresh else '', ',two sources' if two else '')
     if auth:
         label += ',authorize partial/limited_to'
-    app = App(ctx, cache_type, meta, hours, link, refresh, two, auth)
+    if opts:
+        label += ',' + ','.join(sorted(k for k in opts if opts[k]))
+    app = App(ctx, cache_type, meta, hours, link, refresh, two, auth, opts)
     up.two = two
     hist = History(ctx, app, up, clock, label)
     if script is not None:
@@ -1192,6 +1209,98 @@ def run_history(ctx, cache_type, meta, hours, nsteps, up, clock, script=None, li
     return hist
 
 
+def run_merged_wmsc(ctx, up, clock):
+    """tiled GetMap (WMS-C) that is merged from the tiles of two cached layers: whatever validators the answer carries
+    must not produce 304 once the tile of ANY of the layers was rewritten; model: WMSServer.map with a merged result
+    (cacheable is the merger's bool): no cache headers, never conditional."""
+    import yaml
+    from mapproxy.wsgiapp import make_wsgi_app
+    from mapproxy.cache.tile import Tile
+    from webtest import TestApp
+    rng = ctx.rng
+    base = ctx.tmpdir('merged')
+    conf = {'globals': {'cache': {'base_dir': base + '/c', 'lock_dir': base + '/l', 'tile_lock_dir': base + '/t',
+                                  'meta_size': [1, 1], 'meta_buffer': 0}},
+            'services': {'wms': {}, 'tms': {}},
+            'layers': [{'name': 'a', 'title': 'a', 'sources': ['ca']}, {'name': 'b', 'title': 'b', 'sources': ['cb']}],
+            'caches': {'ca': {'grids': ['GLOBAL_MERCATOR'], 'sources': ['ua']}, 'cb': {'grids': ['GLOBAL_MERCATOR'], 'sources': ['ub']}},
+            'sources': {'ua': {'type': 'wms', 'req': {'url': 'http://up.invalid/a', 'layers': 'a', 'transparent': True}},
+                        'ub': {'type': 'wms', 'req': {'url': 'http://up.invalid/b', 'layers': 'b', 'transparent': True}}}}
+    with open(base + '/m.yaml', 'w') as f:
+        yaml.safe_dump(conf, f)
+    wsgi = make_wsgi_app(base + '/m.yaml')
+    app = TestApp(wsgi)
+    layers = wsgi.handlers['tms'].layers
+    tms = {name.split('_')[0]: tl.tile_manager for name, tl in layers.items()}
+    up.two, up.mode = False, 'ok'
+    terms, descr = [], []
+    bodies = {}
+    for it in range(ctx.n(6, 40)):
+        key = rng.choice([0, 5, 6, 15, 9, 3])
+        x, y = key % NK, key // NK
+        bb = tms['a'].grid.tile_bbox((x, y, LEVEL))
+        url = ('/service?service=WMS&request=GetMap&version=1.1.1&layers=a,b&styles=&srs=EPSG:900913&format=image/png'
+               '&width=256&height=256&tiled=true&transparent=true&bbox=%r,%r,%r,%r' % bb)
+        log = []
+
+        def get(headers=None):
+            clock.now += 1
+            r = app.get(url, headers=headers or {}, expect_errors=True)
+            hd = {}
+            for k_, v_ in r.headerlist:
+                hd.setdefault(k_.lower(), v_)
+            public, nostore, weird = cache_control_obs(r.headerlist)
+            rec = {'request': 'GetMap layers=a,b tiled=true key %d' % key, 'headers': headers or {}, 'status': r.status_int,
+                   'etag': hd.get('etag'), 'last_modified': hd.get('last-modified'),
+                   'cache_control': [v for k_, v in r.headerlist if k_.lower() == 'cache-control'],
+                   'body_md5': hashlib.md5(r.body).hexdigest()}
+            log.append(rec)
+            # model case: merged result, cacheable = True (bool)
+            inm, ims = (headers or {}).get('If-None-Match'), (headers or {}).get('If-Modified-Since')
+            if r.status_int in (200, 304) and not weird:
+                b_id = None if (r.status_int == 304 and not r.body) else bodies.setdefault(r.body, len(bodies) + 10)
+                obs = resp_lit(r.status_int, b_id, 'content-type' in hd, None if hd.get('etag') is None else '?' + hd['etag'],
+                               lastmod_secs(hd.get('last-modified')), public, nostore)
+                terms.append('(%s, %s, %s, %s)' % (zlit(b_id if b_id is not None else 0),
+                                                   'None' if inm is None else '(Some %s)' % codes('?' + inm), ims_lit(ims), obs))
+                descr.append(rec)
+            ctx.case(('merged', it, len(log)), True, rec if headers else None)
+            ctx.count('merged-wmsc:status=%d' % r.status_int)
+            return r, hd
+        up.color = rng.choice([(0, 200, 0), (10, 20, 250), (250, 250, 0)])
+        get()
+        r1, h1 = get()
+        # the tile of one layer is rewritten (other bytes, later mtime)
+        which = rng.choice(['a', 'a', 'b'])
+        p = tms[which].cache.tile_location(Tile((x, y, LEVEL)))
+        if not os.path.exists(p):
+            ctx.problem('harness', 'merged WMS-C: the tile of layer %s was not stored' % which, {'path': p})
+            continue
+        data = make_png(rng.choice([(200, 0, 200), (5, 5, 5)]), rng.choice([0, 3, 40]))
+        with open(p + '.h', 'wb') as f:
+            f.write(data)
+        os.rename(p + '.h', p)
+        log.append({'event': 'tile of layer %s rewritten' % which, 'size': len(data)})
+        r_now, _ = get()
+        cond = {}
+        if h1.get('etag'):
+            cond['If-None-Match'] = h1['etag']
+        if h1.get('last-modified'):
+            cond['If-Modified-Since'] = h1['last-modified']
+        if not cond:
+            cond = {'If-None-Match': NONE_ETAG, 'If-Modified-Since': fmt_date(4102444800)}
+        r2, _ = get(cond)
+        if r2.status_int == 304 and r_now.body != r1.body:
+            ctx.fail('merged-wmsc-stale-304',
+                     'tiled GetMap of two cached layers: the tile of layer %r was rewritten (the merged image changed), yet the '
+                     'validators handed out before (%r) are answered 304' % (which, cond), {'history': log})
+        elif r2.status_int == 200 and r2.body != r_now.body:
+            ctx.fail('merged-wmsc-unstable', 'two answers for the same merged tile differ', {'history': log})
+    ctx.corr_check('wmsc_merged', 'Cond', 'Z * option str * imsval * outcome', terms,
+                   "fun c => let '(b, inm, ims, obs) := c in outcome_eqb (serve_wms (fun s => s) %d (Some 259200) true (WBool true) b inm ims) obs" % TPS,
+                   lambda i: descr[i])
+
+
 class TimeZone:
     """run a block with another process time zone (os.environ['TZ'] + time.tzset()), restored afterwards"""
 
@@ -1282,7 +1391,7 @@ def run_app_stream(ctx):
             c = json.load(open(os.path.join(cdir, fn)))
             hist = run_history(ctx, c['cache'], c.get('meta', 1), c.get('hours', 72), 0, up, clock, script=c['script'],
                                link=c.get('link'), refresh=c.get('refresh', False), two=c.get('two', False),
-                               auth=c.get('auth', False))
+                               auth=c.get('auth', False), opts=c.get('opts'))
             hist.label = 'corpus/' + fn
             ctx.count('app:corpus')
             ctx.corr_check('corpus_' + fn[:-5].replace('-', '_'), 'Cond',
@@ -1313,6 +1422,15 @@ def run_app_stream(ctx):
             ctx.corr_check('app_%s_limited_to' % cache_type, 'Cond',
                            'store * event * list (Z * entry) * option outcome * store', hist.terms,
                            CHECKER % (72 * 3600), lambda i, h=hist: h.descr[i], shard=60)
+        # on_error with authorize_stale under a refresh rule (stale tiles served during an outage), and a source that
+        # post-processes its images (transparent_color)
+        for cache_type, refresh, opts in (('file', True, {'authorize_stale': True}), ('sqlite', True, {'authorize_stale': True}),
+                                          ('file', False, {'tcolor': True})):
+            hist = run_history(ctx, cache_type, 1, 72, ctx.n(50, 300), up, clock, refresh=refresh, opts=opts)
+            ctx.corr_check('app_%s_%s' % (cache_type, '_'.join(sorted(opts))), 'Cond',
+                           'store * event * list (Z * entry) * option outcome * store', hist.terms,
+                           CHECKER % (72 * 3600), lambda i, h=hist: h.descr[i], shard=60)
+        run_merged_wmsc(ctx, up, clock)
         # the same code in other time zones (HTTP dates are GMT whatever the zone of the process)
         for tz in ('America/New_York', 'Asia/Kolkata'):
             with TimeZone(tz):
